@@ -130,3 +130,64 @@ def query_names(max_len):
     for n in range(0, max_len + 1):
         for tup in itertools.product(comps, repeat=n):
             yield tup
+
+
+def families():
+    """Further bounded sub-grammars, each enumerated completely, for feature *combinations* the main grammar reaches only in the
+    thorough tier or not at all:
+      T  temporaries constrained in an embedded rule and in the embedding rule (after another expansion of the embedded rule),
+         also two constraints on one temporary in one set;
+      F  user functions with two arguments of every kind combination, two functions;
+      S  sibling rules that reach the same node and go on with the same / different patterns whose function constraints differ only
+         in the function or in the arguments; optionally one rule signing the other."""
+    L = lambda x: ['lit', x]            # noqa
+    P = lambda x: ['pat', x]            # noqa
+    # -- T
+    inner_cons = [[], [[['_t', [L('a')]]]], [[['_t', [L('b')]]]], [[['_t', [L('a'), L('b')]]]]]
+    outer_names = [[P('_t'), ['ref', '#r']], [P('_u'), ['ref', '#r']], [['ref', '#r'], P('_t')], [P('_t'), ['ref', '#r'], P('_t')]]
+    outer_opts = [[L('a')], [L('b')], [L('a'), L('b')], [L('c'), L('a')]]
+    for ic in inner_cons:
+        r1 = {'id': '#r', 'name': [L('a'), P('_t')], 'cons': ic, 'sign': []}
+        for mid in (None, [['ref', '#r'], L('a')], [L('b'), ['ref', '#r']]):
+            r2 = [] if mid is None else [{'id': '#s', 'name': mid, 'cons': [], 'sign': []}]
+            for on in outer_names:
+                tp = on[0][1] if on[0][0] == 'pat' else on[-1][1]
+                for oo in outer_opts:
+                    yield [r1] + r2 + [{'id': '#t', 'name': on, 'cons': [[[tp, oo]]], 'sign': []}]
+                if mid is not None:
+                    # ... and through the middle rule (r <- s <- t), with and without a constraint of its own
+                    via = [['ref', '#s'] if e == ['ref', '#r'] else e for e in on]
+                    yield [r1] + r2 + [{'id': '#t', 'name': via, 'cons': [], 'sign': []}]
+                    yield [r1] + r2 + [{'id': '#t', 'name': via, 'cons': [[[tp, outer_opts[2]]]], 'sign': []}]
+    for ic in inner_cons[1:]:
+        # the shortest embedded rule: one constrained temporary, reached through a pure alias
+        r1 = {'id': '#r', 'name': [P('_t')], 'cons': ic, 'sign': []}
+        for mid in ([['ref', '#r']], [P('x'), ['ref', '#r']]):
+            for on, oc in (([P('_t'), ['ref', '#s']], []), ([P('_t'), ['ref', '#s']], [[['_t', [L('a'), L('b')]]]]),
+                           ([P('_u'), ['ref', '#s']], [[['_u', [L('b')]]]])):
+                yield [r1, {'id': '#s', 'name': mid, 'cons': [], 'sign': []}, {'id': '#t', 'name': on, 'cons': oc, 'sign': []}]
+    for o1, o2 in itertools.product([[L('a')], [L('b')], [P('x')], [L('a'), L('b')], [['fn', '$eq', [P('x')]]]], repeat=2):
+        if o1 != o2:
+            yield [{'id': '#r', 'name': [P('x'), P('_t'), L('a')], 'cons': [[['_t', o1], ['_t', o2]]], 'sign': []}]
+    # -- F
+    args = [L('a'), L('b'), P('x')]
+    for fn in ('$eq', '$ne'):
+        for a1, a2 in itertools.product(args, repeat=2):
+            yield [{'id': '#r', 'name': [P('x'), P('y')], 'cons': [[['y', [['fn', fn, [a1, a2]]]]]], 'sign': []}]
+            yield [{'id': '#r', 'name': [P('x'), P('_t')], 'cons': [[['_t', [['fn', fn, [a1, a2]]]]]], 'sign': []}]
+        for a1, a2, a3 in itertools.product(args, repeat=3):
+            if len({repr(a1), repr(a2), repr(a3)}) > 1:
+                yield [{'id': '#r', 'name': [P('x'), P('y')], 'cons': [[['y', [['fn', fn, [a1, a2, a3]]]]]], 'sign': []}]
+    # -- S
+    calls = [['fn', '$eq', [L('a')]], ['fn', '$eq', [L('b')]], ['fn', '$ne', [L('a')]], ['fn', '$eq', [P('x')]], ['fn', '$ne', [P('x')]],
+             ['fn', '$eq', [L('a'), P('x')]], ['fn', '$eq', [L('b'), P('x')]]]
+    for c1, c2 in itertools.product(calls, repeat=2):
+        if c1 == c2:
+            continue
+        for p2 in ('y', 'z'):
+            for signs in ([], ['#r']):
+                yield [{'id': '#r', 'name': [P('x'), P('y'), L('a')], 'cons': [[['y', [c1]]]], 'sign': []},
+                       {'id': '#s', 'name': [P('x'), P(p2), L('b')], 'cons': [[[p2, [c2]]]], 'sign': signs}]
+                # ... and with nothing after the constrained pattern: the two rules are different name patterns of the same shape
+                yield [{'id': '#r', 'name': [L('a'), P('x'), P('y')], 'cons': [[['y', [c1]]]], 'sign': []},
+                       {'id': '#s', 'name': [L('a'), P('x'), P(p2)], 'cons': [[[p2, [c2]]]], 'sign': signs}]
